@@ -579,6 +579,8 @@ Definition prop_owner (name : bytes) : list string :=
   else if bytes_eqb name (bs "total") then ["C03"%string]
   else if bytes_eqb name (bs "pure") || bytes_eqb name (bs "shared-race-free") || bytes_eqb name (bs "shared-same-results") then ["C13"%string]
   else if bytes_eqb name (bs "http-faithful") then ["C17"%string]
+  else if bytes_eqb name (bs "http-no-truncation") then ["C08"%string]
+  else if bytes_eqb name (bs "http-contents-own-params") then ["C18"%string]
   else if bytes_eqb name (bs "http-options-agree") || bytes_eqb name (bs "options-routes-agree") then ["C12"%string]
   else if bytes_eqb name (bs "http-linearizable") || bytes_eqb name (bs "http-list-consistent") then ["C16"%string]
   else [].
